@@ -130,6 +130,7 @@ fn is_moderately_nested(cursor: Cursor<'_>) -> bool {
     let mut arrows = 0;
     let mut previous = ' ';
     let mut previous_is_joint = false;
+    let mut before_previous = ' ';
     while let Some((cursor, mut level)) = levels.pop() {
         let Some((tt, next)) = cursor.token_tree() else {
             continue;
@@ -138,14 +139,23 @@ fn is_moderately_nested(cursor: Cursor<'_>) -> bool {
         let in_or_operator = std::mem::take(&mut level.in_or_operator);
         match tt {
             proc_macro2::TokenTree::Group(_) => {
-                inside = cursor.any_group().map(|(inside, _, _, _)| inside);
+                let group = cursor.any_group();
+                // (Nothing nests to the right past a block.)
+                if matches!(group, Some((_, proc_macro2::Delimiter::Brace, _, _))) {
+                    level.chain = 0;
+                }
+                inside = group.map(|(inside, _, _, _)| inside);
                 (run, keyword_run) = (0, 0);
                 (previous, previous_is_joint) = (' ', false);
+                before_previous = ' ';
                 level.expects_operand = false;
             }
             proc_macro2::TokenTree::Punct(p) => {
                 run += 1;
-                keyword_run = 0;
+                // (`break 'a break 'a ..`)
+                if p.as_char() != '\'' {
+                    keyword_run = 0;
+                }
                 let mut expects_operand = true;
                 match p.as_char() {
                     '|' if in_or_operator => {}
@@ -158,9 +168,11 @@ fn is_moderately_nested(cursor: Cursor<'_>) -> bool {
                         level.in_or_operator = p.spacing() == proc_macro2::Spacing::Joint;
                     }
                     '>' if previous == '-' && previous_is_joint => arrows += 1,
-                    // Not `==`, `!=`, `<=`, `>=` and `=>`.
+                    // Not `==`, `!=`, `<=`, `>=`, `=>` and `..=` (but `<<=` and `>>=`).
                     '=' if p.spacing() == proc_macro2::Spacing::Alone
-                        && !(previous_is_joint && matches!(previous, '=' | '!' | '<' | '>'))
+                        && !(previous_is_joint
+                            && matches!(previous, '=' | '!' | '<' | '>' | '.')
+                            && !(matches!(previous, '<' | '>') && before_previous == previous))
                         && !level.in_head =>
                     {
                         level.chain += 1;
@@ -173,6 +185,7 @@ fn is_moderately_nested(cursor: Cursor<'_>) -> bool {
                 if !level.in_head {
                     level.expects_operand = expects_operand;
                 }
+                before_previous = if previous_is_joint { previous } else { ' ' };
                 previous = p.as_char();
                 previous_is_joint = p.spacing() == proc_macro2::Spacing::Joint;
             }
